@@ -391,6 +391,11 @@ def run_gauge(case):
             tol = max(tol, 1e-5)
         elif name == "gauge_all_random":
             tn = tn.gauge_all_random(max_iterations=1 + k % 2, unitary=bool(k % 3), seed=k % 1000, inplace=bool(k % 2))
+            if not k % 3:
+                # a non-unitary random gauge pair (G, G^-1) inflates the tensors by cond(G): the rounding error of evaluating
+                # the network scales with the product of its tensors' norms, so that product becomes the error scale from
+                # here on (found by the thorough tier: 8.5e-4 after four near-singular 2x2 / 3x3 gauges)
+                mag = max(mag, magnitude(tn))
             tol = max(tol, 1e-5)  # non-unitary random gauges are inverted
         elif name == "gauge_all_bp":
             if not all_dangling:
